@@ -24,5 +24,6 @@ package main
 //@   maprange 0: keyed-write
 //@   maprange 1: argued the result order is random by design; its only consumer builds SchemaMappings, whose readers take the first entry with a given SchemaID, and the ids are unique (they are the keys of a set)
 //@ func init$1
-//@   props C12
+//@   props C12 C16 C20
+//@   iteration-local SchemaMapping
 //@   maprange 0: argued the order only decides in which order the output files are written; their names and contents come from Sources()
